@@ -18,7 +18,7 @@ META = dict(
                "carry-over, revert-after-merge, identical parallel changes and criss-cross are reached. Hundreds (thorough: "
                "thousands) of simulated behaviours with two files up to 5 (6) revisions are replayed on real repositories and "
                "every recorded (revision, file) is compared with the rule by TLC.",
-    level_note="Merges are replayed as set_parent_ids + explicit tree contents (the merge algorithm is C17's). File ids are "
+    level_note="Merges and pulls are replayed as set_parent_ids + explicit tree contents (the merge algorithm is C17's). File ids are "
                "fixed; contents are two values. Ghost parents and knit repositories are not covered. bzrformats index / "
                "groupcompress code trusted as executed.",
 )
@@ -199,10 +199,12 @@ def replay(sub, chunk):
                 if a == "commit":
                     tree.commit("m", rev_id=rid(s["r"]), timestamp=1000000000 + s["r"], timezone=0, committer="C <c@e.com>")
                 elif a == "pull":
-                    tree.pull(fx.trees[3 - b].branch)
-                    if fx.real_wt(b) != st["wt"][b]:
-                        sub.drift("working tree after pull differs from the tip's tree", {"format": fmt, "calls": calls})
-                        fx.set_wt(b, st["wt"][b])
+                    # like a merge: the branch is fast-forwarded, the tree gets the new basis and explicit contents
+                    # (how WorkingTree.pull / update rewrite the files is not C02's subject)
+                    with tree.lock_write():
+                        tree.branch.pull(fx.trees[3 - b].branch, stop_revision=rid(s["r"]))
+                        tree.set_parent_ids([rid(s["r"])])
+                    fx.set_wt(b, st["wt"][b])
                 else:
                     if a == "merge":
                         with tree.lock_write():
@@ -352,4 +354,4 @@ def run(ctx):
              "directory, <= 5 revisions quick / 6 thorough, <= 2 edits per commit) over modify / move / chmod / directory rename / commit / "
              "merge any missing revision with a per-file THIS-or-OTHER choice / pull on two branches (plus remove / re-add runs); each replayed on 2a and pack-0.92; "
              "evaluations = revisions read back; non-trivial = history with at least one merge revision")
-    ctx.assume("merges are replayed as set_parent_ids + explicit tree contents")
+    ctx.assume("merges and pulls are replayed as set_parent_ids + explicit tree contents")
